@@ -32,13 +32,16 @@ def pin(v, n):
     return n - 1
 
 
-def scenario(d, jshape):
-    """(query-so-far, joined item, table pool, availability flags)"""
+def scenario(d, jshape, upd=False):
+    """(query-so-far, joined item, table pool, availability flags); upd: UPDATE f ... FROM g instead of SELECT ... FROM f"""
     Q = QS[d]
     f = Table("f")
     e = Table("e")
     cte_body = QS[0].from_(Table("w")).select(Field("x"), Field("y"))
-    q = Q.with_(cte_body, "c").from_(f).join(e).on(f.x == e.x)
+    if upd:
+        q = Q.with_(cte_body, "c").update(f).set("x", 1).from_(Table("g")).join(e).on(f.x == e.x)
+    else:
+        q = Q.with_(cte_body, "c").from_(f).join(e).on(f.x == e.x)
     if jshape == 0:
         j = Table("j")
     elif jshape == 1:
@@ -73,21 +76,28 @@ def field_of(tbl, col):
     cubes={"d": [0, 2], "jshape": range(NJ)},
     bounds={"quick": {}, "thorough": {}},
     timeout={"quick": 300, "thorough": 900},
-    witness=[dict(d=0, jshape=0, lt=0, rt=2, lc=0, rc=0, swap=False, wrap=0, extra=0),
-             dict(d=2, jshape=1, lt=4, rt=2, lc=0, rc=0, swap=True, wrap=1, extra=0)],
+    witness=[dict(d=0, jshape=0, lt=0, rt=2, lc=0, rc=0, swap=False, wrap=0, extra=0, upd=False),
+             dict(d=2, jshape=1, lt=4, rt=2, lc=0, rc=0, swap=True, wrap=1, extra=0, upd=False),
+             dict(d=2, jshape=0, lt=0, rt=2, lc=0, rc=0, swap=False, wrap=0, extra=0, upd=True)],
     doc="join(item).on(criterion): item shape x which table each of the two (three with `extra`) criterion fields "
-        "belongs to (8 candidates, 4 of them unavailable) x column names {x,y} x operand order x function wrapping: "
+        "belongs to (8 candidates, 4 of them unavailable) x column names {x,y} x operand order x function wrapping x base "
+        "statement (SELECT .. FROM f / UPDATE f .. FROM g): "
         "JoinException raised iff a field's table is unavailable",
 )
-def c14_join(d: int, jshape: int, lt: int, rt: int, lc: int, rc: int, swap: bool, wrap: int, extra: int) -> int:
+def c14_join(d: int, jshape: int, lt: int, rt: int, lc: int, rc: int, swap: bool, wrap: int, extra: int, upd: bool) -> int:
     """
     bound: 0 <= lt <= 7 and 0 <= rt <= 7 and 0 <= lc <= 1 and 0 <= rc <= 1 and 0 <= wrap <= 1 and 0 <= extra <= 2
     """
     lt, rt, lc, rc, wrap, extra = pin(lt, NT), pin(rt, NT), pin(lc, 2), pin(rc, 2), pin(wrap, 2), pin(extra, 3)
     extra = (0, 4, 5)[extra]  # no third field / third field of the declared CTE / of the outsider
-    swap = bool(swap)
+    swap, upd = bool(swap), bool(upd)
     with _NoTracing():
-        q, j, pool = scenario(d, jshape)
+        try:
+            q, j, pool = scenario(d, jshape, upd)
+        except Exception as e:
+            note("raised", "building the base statement: " + type(e).__name__)
+            return verdict(False, "c14_join", d=d, jshape=jshape, lt=lt, rt=rt, lc=lc, rc=rc, swap=swap, wrap=wrap,
+                           extra=extra, upd=upd)
         L = field_of(pool[lt][0], "x" if lc == 0 else "y")
         R = field_of(pool[rt][0], "x" if rc == 0 else "y")
         if wrap == 1:
@@ -102,7 +112,7 @@ def c14_join(d: int, jshape: int, lt: int, rt: int, lc: int, rc: int, swap: bool
         raised = None
         try:
             out = q.join(j).on(crit)
-            out.select(Field("x", table=pool[0][0])).get_sql(dctx(d))
+            (out if upd else out.select(Field("x", table=pool[0][0]))).get_sql(dctx(d))
         except JoinException:
             raised = "JoinException"
         except Exception as e:
@@ -111,7 +121,8 @@ def c14_join(d: int, jshape: int, lt: int, rt: int, lc: int, rc: int, swap: bool
         note("available", available)
         note("raised", raised)
         ok = (raised == "JoinException") if not available else (raised is None)
-    return verdict(ok, "c14_join", d=d, jshape=jshape, lt=lt, rt=rt, lc=lc, rc=rc, swap=swap, wrap=wrap, extra=extra)
+    return verdict(ok, "c14_join", d=d, jshape=jshape, lt=lt, rt=rt, lc=lc, rc=rc, swap=swap, wrap=wrap, extra=extra,
+                   upd=upd)
 
 
 # ---- other guards --------------------------------------------------------------------------------
